@@ -141,7 +141,7 @@ type key struct {
 
 func grid() []key {
 	return []key{
-		{"media", "hook", []opt{{"", "ok"}, {`hook = []`, "range"}, {`hook = [""]`, "range"}, {`hook = ["x"]`, "ok"}, {`hook = ["x", "%url"]`, "ok"}, {`hook = "x"`, "reject"}, {`hook = [1]`, "reject"}}},
+		{"media", "hook", []opt{{"", "ok"}, {`hook = []`, "range"}, {`hook = [""]`, "range"}, {`hook = ["x"]`, "ok"}, {`hook = ["x", "%url"]`, "ok"}, {`hook = ["x", "%mimetype", "%supertype/%subtype", "%url"]`, "ok"}, {`hook = "x"`, "reject"}, {`hook = [1]`, "reject"}}},
 		{"network", "cache_size", []opt{{"", "ok"}, {`cache_size = -1`, "range"}, {`cache_size = 0`, "range"}, {`cache_size = 1`, "ok"}, {`cache_size = 128`, "ok"}, {`cache_size = 1.5`, "reject"}, {`cache_size = "8"`, "reject"}}},
 		{"network", "preload_amount", []opt{{"", "ok"}, {`preload_amount = -1`, "range"}, {`preload_amount = -2`, "range"}, {`preload_amount = 0`, "ok"}, {`preload_amount = 1`, "ok"}, {`preload_amount = 5`, "ok"}, {`preload_amount = 300`, "ok"}, {`preload_amount = "1"`, "reject"}}},
 		{"network", "timeout_seconds", []opt{{"", "ok"}, {`timeout_seconds = -1`, "range"}, {`timeout_seconds = 0`, "range"}, {`timeout_seconds = 1`, "ok"}, {`timeout_seconds = 9223372037`, "range"}, {`timeout_seconds = "1s"`, "range"}, {`timeout_seconds = 1.5`, "reject"}, {`timeout_seconds = true`, "reject"}}},
@@ -277,7 +277,21 @@ func probeWorld() *fedi.Net {
 	for i := 0; i < 7; i++ {
 		note := fedi.Note(fmt.Sprintf("https://h1.example/notes/%d", i), fmt.Sprintf(`<p>note %d <a href="https://h1.example/notes/%d">next</a></p>`, i, (i+1)%7))
 		note["attributedTo"] = probeActor
-		note["url"] = fedi.Link("https://m.example/v.mp4", "", "video/mp4")
+		// the media links come in every shape a configuration's hook may meet: typed, untyped, with a media type that does not parse or is no string, an attachment, none
+		switch i {
+		case 0:
+			note["url"] = fedi.Link("https://m.example/v.mp4", "", "video/mp4")
+		case 1:
+			note["url"] = fedi.Link("https://m.example/v", "", "")
+		case 2:
+			note["url"] = fedi.M{"type": "Link", "href": "https://m.example/w.mp4", "mediaType": "not a type"}
+		case 3:
+			note["url"] = fedi.M{"type": "Link", "href": "https://m.example/n.mp4", "mediaType": 7}
+		case 4:
+			note["attachment"] = []any{fedi.M{"type": "Document", "url": "https://m.example/d.bin", "mediaType": "/"}, fedi.M{"type": "Image", "url": fedi.M{"type": "Link", "href": "https://m.example/e.png", "mediaType": "image/"}}}
+		case 5:
+			note["url"] = []any{"https://m.example/plain", fedi.Link("https://m.example/v.webm", "", "VIDEO/WEBM; codecs=vp9")}
+		}
 		n.Serve(note)
 		acts = append(acts, fedi.Activity("Create", fmt.Sprintf("https://h1.example/acts/%d", i), probeActor, note))
 	}
@@ -330,6 +344,12 @@ func runProbe() {
 	step("link-external", func() { d.Keys("1\r") })
 	step("media", func() { d.Keys("o") })
 	step("history", func() { d.Keys("hhhll") })
+	// the media of every entry of the listing is opened, whatever shape its link has
+	step("media-each", func() {
+		if err := d.Command("open", probeActor); err == nil {
+			d.Keys("jojojojojojojojo")
+		}
+	})
 	step("creator", func() { d.Keys("cp") })
 	// every feed the configuration declares (and one it does not) is opened and browsed
 	var feedNames []string
@@ -498,7 +518,7 @@ func main() {
 	}
 	r := ev.New("C19", "exploration",
 		"(i) every string '#'+6 hex digits (quick: lower case, 16^6; thorough: both cases, 22^6) and every string of length <=7 over {#,0,f,F,g,+,-,space,x,_,é} through the real colour converter, against the arithmetic value; "+
-			"(ii) TOML files over the documented keys: full product of hook(7) x cache_size(7) x preload_amount(8) x timeout_seconds(8) x feeds(5) with typical colours, full product of the four colours (6^4), and every single and pairwise combination with unknown keys/tables and a syntax error, "+
+			"(ii) TOML files over the documented keys: full product of hook(8) x cache_size(7) x preload_amount(8) x timeout_seconds(8) x feeds(5) with typical colours, full product of the four colours (6^4), and every single and pairwise combination with unknown keys/tables and a syntax error, "+
 			"through the real parser against a reference acceptance predicate (reject / accept / range-checked either way); (iii) every accepted configuration of (ii)'s first product with at most two keys set (all singles and all pairs) starts a probe process driving the real UI (open, move, select, follow and open links, history, creators, every configured feed and an unknown one, resize); "+
 			"(iv) six start-up environments (file empty / absent under XDG_CONFIG_HOME, only HOME, neither variable, both empty, file under $HOME/.config): the configuration in effect after servitor's own init must be the same defaults, with well-formed colours, and the HOME file must be used; "+
 			"distinct_nontrivial = configuration files that deviate from the defaults")
